@@ -173,8 +173,13 @@ def two_program_path(stats, files, main, options=()):
                 f.write(text)
         env = dict(os.environ, PYTHONPATH=emb.REPO)
         py = sys.executable
-        a = subprocess.run([py, "-m", "compiler.front_end.emboss_front_end", "--import-dir", d, "--output-file", os.path.join(d, "ir.json"), main], cwd=d, env=env, capture_output=True, text=True, timeout=600)
-        b = subprocess.run([py, "-m", "compiler.back_end.cpp.emboss_codegen_cpp", "--input-file", os.path.join(d, "ir.json"), "--output-file", os.path.join(d, "two.h")] + options, cwd=d, env=env, capture_output=True, text=True, timeout=600)
+        # the three programs are three processes: nothing but the files passes between them, so each may
+        # as well run under its own string-hash seed
+        hs = sum(len(t) for t in files.values())
+        env_a = dict(env, PYTHONHASHSEED=str(1 + hs % 5))
+        env_b = dict(env, PYTHONHASHSEED=str(7 + hs % 3))
+        a = subprocess.run([py, "-m", "compiler.front_end.emboss_front_end", "--import-dir", d, "--output-file", os.path.join(d, "ir.json"), main], cwd=d, env=env_a, capture_output=True, text=True, timeout=600)
+        b = subprocess.run([py, "-m", "compiler.back_end.cpp.emboss_codegen_cpp", "--input-file", os.path.join(d, "ir.json"), "--output-file", os.path.join(d, "two.h")] + options, cwd=d, env=env_b, capture_output=True, text=True, timeout=600)
         c = subprocess.run([py, os.path.join(emb.REPO, "embossc"), "--import-dir", d, "--output-path", d, "--output-file", "one.h"] + options + [main], cwd=d, env=env, capture_output=True, text=True, timeout=600)
         case = {"files": files, "main": main, "step": "cli", "options": options}
         stats.case(["cli", files, main, options], True, ["cli-two-program"] + ["option:" + o for o in options], sample=None)
@@ -233,6 +238,13 @@ def shard(idx, seed, n, cli_n, all_steps):
             two_program_path(stats, files, main, [(), ("--no-cc-enum-traits",), ("--cc-enum-traits",)][(idx + count[0]) % 3])
 
     vlib.hyp_run(st.integers(0, 2**63), body, n, seed=seed * 1039 + idx)
+    if idx == 15:
+        # a module with many imports (one of them twice, one through a diamond), every run
+        from props import c17_determinism as C17
+
+        files, main = [s_ for s_ in C17.literal_sets() if "omega_long_name.emb" in s_[0]][0]
+        if check_source_set(stats, files, main, "many-imports", STEPS):
+            two_program_path(stats, files, main, ())
     if idx < cli_n:
         files, main = sets[(seed + idx * 7) % len(sets)]
         if check_source_set(vlib.Stats(), files, main, "corpus", [None]):
